@@ -37,6 +37,8 @@ func main() {
 		os.Exit(cmdRun(os.Args[2:]))
 	case "mutants":
 		os.Exit(cmdMutants(os.Args[2:]))
+	case "seeded":
+		os.Exit(cmdSeeded(os.Args[2:]))
 	case "list":
 		used := map[string]bool{}
 		for _, id := range sortedKeys(properties) {
@@ -224,9 +226,10 @@ func cmdCheck(args []string) int {
 
 	// thorough: cross-check call-graph based rules etc. is done inside rules through p; the mutant corpus
 	// is a measurement of the checker and is run by `zrntlint mutants` (its result is added to evidence, never to the verdict).
-	var mutantSummary map[string]any
+	var mutantSummary, seededSummary map[string]any
 	if *tier == "thorough" {
 		mutantSummary = runMutantsForRules(*repo, pr.Rules)
+		seededSummary = runSeededForProperty(*repo, *verif, *pid)
 	}
 
 	knownSet := map[string]KnownFinding{}
@@ -325,6 +328,9 @@ func cmdCheck(args []string) int {
 	}
 	if mutantSummary != nil {
 		cov["mutant_corpus"] = mutantSummary
+	}
+	if seededSummary != nil {
+		cov["seeded_corpus"] = seededSummary
 	}
 	assumptions := []string{
 		"Level 'other': what is decided is a set of structural necessary conditions of the property, exhaustively over the loaded program; the behavioural property itself is not proven.",
